@@ -422,6 +422,21 @@ inductive WEv where
   | told (t d : Nat) (alive : Bool)       -- failure / traffic report after which the sets are told `alive`
   | pen (t d : Nat) (v : Int)             -- the dialer's backoff penalty for the domain changed
   | policy (p : Policy) (fixedIdx : Int)  -- `DialerGroup.SetSelectionPolicy`
+  /-- `Dialer.RestoreHealthSnapshot` (reload hand-over): the six collections of dialer `d` are
+  replaced by `cs` / the flags by `al`, then every registered set is told, in collection-slot order
+  (the two TCP slots are visited twice because of the TCP-DNS alias slots 0/1). -/
+  | restore (d : Nat) (cs : Nat → Coll) (al : Nat → Bool)
+
+/-- the order in which `RestoreHealthSnapshot` walks `d.collections[0..7]`, in type indices:
+slot 0/1 = TCP-DNS aliases of tcp4/tcp6, 2/3 = dns-udp4/6, 4/5 = tcp4/6, 6/7 = data-udp4/6 -/
+def restoreOrder : List Nat := [2, 3, 0, 1, 2, 3, 4, 5]
+
+/-- the sets of domain `t` are told `alive` about dialer `d` (flag set, snapshot read from the
+dialer's collection): the common tail of every report, of `MarkAliveForReloadFallback`, and of each
+notification of `RestoreHealthSnapshot` -/
+def toldStep (w : World) (t d : Nat) (a : Bool) : World × List GCb :=
+  let r := gNotify w.g t d a (w.snap w.g.policy t d)
+  ({ w with g := r.1 }, r.2)
 
 /-- one world event: new world and the group-level callbacks it fired -/
 def stepWcb (w : World) : WEv → World × List GCb
@@ -429,17 +444,41 @@ def stepWcb (w : World) : WEv → World × List GCb
     let w1 := { w with colls := upd w.colls t (upd (w.colls t) d ((w.colls t d).append l)) }
     let r := gNotify w1.g t d true (w1.snap w1.g.policy t d)
     ({ w1 with g := r.1 }, r.2)
-  | .told t d a =>
-    let r := gNotify w.g t d a (w.snap w.g.policy t d)
-    ({ w with g := r.1 }, r.2)
+  | .told t d a => toldStep w t d a
   | .pen t d v => ({ w with pens := upd w.pens t (upd (w.pens t) d v) }, [])
   | .policy p fi =>
     let r := gSetPolicy w.g p fi (fun t d => w.snap p t d)
     ({ w with g := r.1 }, r.2)
+  | .restore d cs al =>
+    let w1 := { w with colls := fun t => if t < 6 then upd (w.colls t) d (cs t) else w.colls t }
+    restoreOrder.foldl (fun (acc : World × List GCb) t =>
+      let r := toldStep acc.1 t d (al t)
+      (r.1, acc.2 ++ r.2)) (w1, [])
 
 def stepW (w : World) (e : WEv) : World := (stepWcb w e).1
 
 def runW (w : World) (h : List WEv) : World := h.foldl stepW w
+
+/-! ### reload hand-over helpers of the group (`dialer_group.go` 155-200) -/
+
+/-- one type of `EnsureReloadSelectionFloor`: a set that exists and is empty gets the recorded
+fallback (or `Dialers[0]`) marked alive — `MarkAliveForReloadFallback` = flag + told alive -/
+def floorStep (fb : Nat → Option Nat) (acc : World × List GCb) (t : Nat) : World × List GCb :=
+  let g := acc.1.g
+  if g.hasSets && (g.sets t).entries.isEmpty then
+    let cand : Option Nat := match fb t with
+      | some d => some d
+      | none => if g.n > 0 then some 0 else none
+    match cand with
+    | some d =>
+      let r := toldStep acc.1 t d true
+      (r.1, acc.2 ++ r.2)
+    | none => acc
+  else acc
+
+/-- `EnsureReloadSelectionFloor(fallback)` -/
+def floorW (w : World) (fb : Nat → Option Nat) : World × List GCb :=
+  (List.range 6).foldl (floorStep fb) (w, [])
 
 /-- `NewDialerGroup` over dialers that already carry `colls`/`pens`/alive flags -/
 def worldNew (n : Nat) (tol : Int) (offs : Nat → Int) (p : Policy) (fixedIdx : Int)
@@ -557,5 +596,78 @@ def chooseSelectAll (g : Group) (t : NetType) (strict : Bool) (excl : Option Nat
   match selectAll g t strict excl with
   | .error .noAlive => selectAll g t.flip false excl
   | r => r
+
+/-! ### `control/dial.go`: from a flow to a selection, and `routeDial`'s retry -/
+
+/-- the dial modes exercised here (`domain` with its DNS-knowledge probe is C18's subject) -/
+inductive DialMode where
+  | ip | domainPlus | domainCao
+deriving DecidableEq, Repr
+
+/-- what `p.Outbound` is: a user-defined group, a reserved outbound (direct/block), or the
+"decide in the control plane" placeholder -/
+inductive OutKind where
+  | user | reserved | routing
+deriving DecidableEq, Repr
+
+/-- the sniffed domain: none, a name, or an IP literal -/
+inductive DomKind where
+  | none | name | ipLiteral
+deriving DecidableEq, Repr
+
+/-- `ChooseDialTarget` as far as selection cares: (shouldReroute, dialIp) -/
+def chooseTarget (m : DialMode) (reserved : Bool) (dom : DomKind) : Bool × Bool :=
+  if !reserved && dom != .none then
+    match m with
+    | .ip => (false, true)
+    | .domainPlus => (false, dom == .ipLiteral)
+    | .domainCao => (true, dom == .ipLiteral)
+  else (false, true)
+
+/-- `strictIpVersion` of `chooseProxyDialer`: after a re-route (by name, or because the kernel left
+the decision to the control plane) the target — hence `dialIp` — is chosen again for the routed
+outbound (`routedReserved` = the routed outbound is direct/block). -/
+def dialStrict (m : DialMode) (out : OutKind) (dom : DomKind) (routedReserved : Bool) : Bool :=
+  let r1 := chooseTarget m (out != .user) dom
+  if r1.1 || out == .routing then (chooseTarget m routedReserved dom).2 else r1.2
+
+/-- the selection network type: family of the destination, except that UDP follows the client -/
+def dialSelType (udp src6 dst6 : Bool) : NetType :=
+  ⟨udp, if udp && (src6 != dst6) then src6 else dst6, false, .data⟩
+
+inductive DialOutcome where
+  | ok | unreachable | otherErr
+deriving DecidableEq, Repr
+
+/-- domain `routeDial` reports dead after a forced-unreachable dial error: `SelectionNetworkTypeObj`
+of the result = requested L4, the admitting domain's family, data domain for UDP -/
+def endpointIdx (udp : Bool) (sel : Nat) : Nat := (if udp then 4 else 2) + sel % 2
+
+/-- `routeDial` (deterministic form over `chooseSelectAll`): attempt 0; on a network-unreachable
+dial error the chosen node is reported dead (forced) for the endpoint domain and one more attempt
+is made.  Returns the new world, the callbacks, and the answers of the attempts. -/
+def routeDialAll (w : World) (t : NetType) (strict : Bool) (excl : Option Nat) (b0 : DialOutcome) :
+    World × List GCb × List (Except SelErr (List SelOk)) :=
+  let a0 := chooseSelectAll w.g t strict excl
+  match a0, b0 with
+  | .ok [x], .unreachable =>
+    let r := toldStep w (endpointIdx t.udp x.sel) x.d false
+    (r.1, r.2, [a0, chooseSelectAll r.1.g t strict excl])
+  | _, _ => (w, [], [a0])
+
+/-! ### `CaptureReloadSelectionFallback` -/
+
+/-- `CaptureReloadSelectionFallback`: per standard type the node a non-strict, exclusion-free
+selection returns (nil on error) -/
+def captureFallback (rnd : Nat → Nat → Nat → Nat → Nat) (g : Group) (t : Nat) : Option Nat :=
+  match select (rnd t) g (stdType t) false none with
+  | .ok x => some x.d
+  | .error _ => none
+
+/-- all nodes `CaptureReloadSelectionFallback` may record for type `t` (driver form) -/
+def captureFallbackAll (g : Group) (t : Nat) : List Nat :=
+  match selectAll g (stdType t) false none with
+  | .ok l => l.map (·.d)
+  | .error _ => []
 
 end DaeVerif.C15
